@@ -21,6 +21,8 @@ import (
 //	gen_oid_from_curve    oidFromNamedCurve: (curve constructor as text, oid)
 //	gen_pubkeyalg_from_oid getPublicKeyAlgorithmFromOID: (oid, algo)
 //	gen_marshal_pubkey_oid marshalPublicKey: (Go key type as text, oid written as algorithm)
+//	gen_ext_oids          the oidExtension* literals; gen_parse_ext_arms: the arcs parseCertificate's switch e.Id[3] handles
+//	gen_keyusage_consts   the KeyUsage* constants in source order
 //	gen_signing_defaults  signingParamsForPublicKey: (Go key type, curve or "", pubType, hashFunc, oid)
 //	plus every constant of the SignatureAlgorithm / PublicKeyAlgorithm / Hash / ExtKeyUsage blocks that
 //	the proofs name (c_<GoName>)
@@ -379,6 +381,88 @@ func init() {
 		if n == 0 {
 			return fmt.Errorf("signingParamsForPublicKey: no default found")
 		}
+
+		// the extension OIDs buildExtensions writes under (package-level []int literals)
+		b.Reset()
+		b.WriteString("\nDefinition gen_ext_oids : list (string * list N) :=\n  [")
+		for i, name := range []string{"oidExtensionSubjectKeyId", "oidExtensionKeyUsage", "oidExtensionExtendedKeyUsage",
+			"oidExtensionAuthorityKeyId", "oidExtensionBasicConstraints", "oidExtensionSubjectAltName",
+			"oidExtensionCertificatePolicies", "oidExtensionNameConstraints", "oidExtensionCRLDistributionPoints",
+			"oidExtensionAuthorityInfoAccess", "oidExtensionCRLNumber"} {
+			e, err := p.Var(name)
+			if err != nil {
+				return err
+			}
+			if _, ok := e.(*ast.CompositeLit); !ok {
+				return fmt.Errorf("%s is not a literal", name)
+			}
+			oid, err := p.IntList(e)
+			if err != nil {
+				return fmt.Errorf("%s: %v", name, err)
+			}
+			if i > 0 {
+				b.WriteString(";\n   ")
+			}
+			fmt.Fprintf(&b, "(%q, %s)", name, nlist(oid))
+		}
+		b.WriteString("].\n")
+		v.Raw(b.String())
+
+		// parseCertificate: the arcs the "switch e.Id[3]" under id-ce (2.5.29) has an arm for
+		fn, ok = p.Funcs["parseCertificate"]
+		if !ok {
+			return fmt.Errorf("parseCertificate not found")
+		}
+		var arms []*big.Int
+		found := false
+		ast.Inspect(fn, func(nd ast.Node) bool {
+			sw, ok := nd.(*ast.SwitchStmt)
+			if !ok || found {
+				return true
+			}
+			ix, ok := sw.Tag.(*ast.IndexExpr)
+			if !ok {
+				return true
+			}
+			sel, ok := ix.X.(*ast.SelectorExpr)
+			if !ok || sel.Sel.Name != "Id" {
+				return true
+			}
+			if k, err := p.Eval(ix.Index); err != nil || k.Int64() != 3 {
+				return true
+			}
+			found = true
+			for _, st := range sw.Body.List {
+				for _, ce := range st.(*ast.CaseClause).List {
+					if a, err := p.Eval(ce); err == nil {
+						arms = append(arms, a)
+					}
+				}
+			}
+			return false
+		})
+		if !found || len(arms) == 0 {
+			return fmt.Errorf("parseCertificate: switch e.Id[3] not found")
+		}
+		v.NList("gen_parse_ext_arms", arms)
+
+		// the KeyUsage constants in source order, and the number of bits parseCertificate reads
+		b.Reset()
+		b.WriteString("\nDefinition gen_keyusage_consts : list (string * N) :=\n  [")
+		for i, name := range []string{"KeyUsageDigitalSignature", "KeyUsageContentCommitment", "KeyUsageKeyEncipherment",
+			"KeyUsageDataEncipherment", "KeyUsageKeyAgreement", "KeyUsageCertSign", "KeyUsageCRLSign", "KeyUsageEncipherOnly",
+			"KeyUsageDecipherOnly"} {
+			val, ok := p.Consts[name]
+			if !ok {
+				return fmt.Errorf("constant %s not found", name)
+			}
+			if i > 0 {
+				b.WriteString("; ")
+			}
+			fmt.Fprintf(&b, "(%q, %s)", name, val)
+		}
+		b.WriteString("].\n")
+		v.Raw(b.String())
 		return v.Write(c, "X509Tables.v")
 	})
 }
